@@ -289,6 +289,8 @@ func allChecks() []*Check {
 				{Pkg: "client", Func: "VerifC02Recv", Quick: map[string]int{"L": 4}, Thorough: map[string]int{"L": 6}, Asserts: []string{"later-line-processed"}},
 				{Pkg: "client", Func: "VerifC02Recv", Quick: map[string]int{"L": 1, "LONG": 4092, "LONGSPAN": 6}, Thorough: map[string]int{"L": 2, "LONG": 4080, "LONGSPAN": 30}, Asserts: []string{"later-line-processed"}, Note: "lines around and beyond the reader's 4096-byte buffer"},
 				{Pkg: "client", Func: "VerifC02HandlerShapes", Quick: map[string]int{"L": 0, "RUN": 600}, Thorough: map[string]int{"L": 0, "RUN": 600}, Asserts: []string{"later-PING-still-answered", "later-line-still-dispatched"}, Note: "600 copies of one arbitrary byte value after each beginning"},
+				{Pkg: "client", Func: "VerifC02Live", Quick: map[string]int{"L": 0, "RUN": 600}, Thorough: map[string]int{"L": 1, "RUN": 600}, Asserts: []string{"live:later-PING-answered-on-the-wire", "live:later-line-still-dispatched", "live:still-connected"}, Note: "the same over a live connection (real Connect, recv, runLoop, send, write): whatever the handlers answer, the connection stays up"},
+				{Pkg: "client", Func: "VerifC02Live", Quick: map[string]int{"L": 1}, Thorough: map[string]int{"L": 2}, Asserts: []string{"live:later-PING-answered-on-the-wire", "live:later-line-still-dispatched", "live:still-connected"}, Note: "live connection, short symbolic suffixes"},
 			},
 			Bounds:      map[string]string{"quick": "ParseLine + Text/Target/Public on every ASCII byte string of length <= 6, and <= 4 bytes after 6 structural prefixes; every built-in handler's verb with 0..4 arbitrary ASCII bytes as the rest of the line, and 0..2 bytes after each of 37 well-formed beginnings (incl. complete CTCP messages with the closing \\001), tracking on/off, each followed by a well-formed line for every built-in verb and by CAP / PING / PRIVMSG (a deadlock or an unterminated loop is a violation); the same beginnings followed by 600 copies of ONE arbitrary byte value (all 256 but CR, LF and the UTF-8 lead bytes C2/E1/E2/E3); the real recv loop on 0..4 arbitrary ASCII bytes cut into two reads anywhere, and on lines of 4092..4098 bytes (reads split around the 4096-byte buffer), each followed by a well-formed line", "thorough": "lengths 9 / 7 / 6 / 3; recv junk 6 bytes; long lines 4080..4110"},
 			Outside:     []string{"non-ASCII bytes other than as a run of one value; C2/E1/E2/E3 (lead bytes of multi-byte Unicode spaces, refused by the white-space models)", "line lengths between the short bound and the 600 / 4096 windows"},
